@@ -243,14 +243,17 @@ def check_history(case, ctx):
     skip = {k for k in ov if k not in ev0_cells}
     # member cells holding an input-free formula (an error constant is the
     # formula =#ERR in this library): see known finding C07-range-override-...
+    # ... or a formula all of whose precedents are supplied in the same call:
+    # its own function is then ready as early as the range's inverse and wins.
     stale = set()
     for k in via_range:
-        cell = ev0_cells.get(k)
+        cell = ev0_cells.get(k) or ev0_cells.get(ev.owner.get(k))
         if cell is None:
             continue
         v = cell.get('v')
-        if (isinstance(v, str) and v.startswith('#')) or (
-                'f' in cell and not wbrun.refs_in(desc, cell['f'])):
+        if (isinstance(v, str) and v.startswith('#')) or ('f' in cell and all(
+                p in ov or not ev.populated(p)
+                for p in wbrun.refs_in(desc, cell['f']))):
             stale.add(k)
     tainted = wbrun.downstream(desc, stale) if stale else set()
     unpop = {k for k in via_range if k not in ev0_cells and k not in ev.owner}
@@ -258,8 +261,14 @@ def check_history(case, ctx):
 
     def annotate(key):
         if key in stale:
+            grp = ev.owner.get(key, key)
+            ov2 = {kk: vv for kk, vv in ov.items()
+                   if kk != key and ev.owner.get(kk, kk) != grp}
+            own = rw.Evaluator(desc, ov2).raw(key)
+            if own == xl.BLANK:
+                own = xl.c_num(0)
             return {'_tag': 'stale-member:', 'stale_member': True,
-                    'own_value': xl.show(rw.Evaluator(desc).raw(key))}
+                    'own_value': xl.show(own) if own is not rw.UNKNOWN else 'unknown'}
         if key in tainted:
             return {'_tag': 'downstream-of-stale-member:',
                     'downstream_of_stale_member': sorted(
@@ -317,6 +326,8 @@ def make_case(seed, i, tier):
         _sparsify(rng, desc)
     if i % 4 == 1:
         _name_and_target(rng, desc)
+    if i % 3 == 2:
+        _ranges_over_arrays(rng, desc)
     forms = wbrun.formula_cells(desc)
     if not forms:
         return None
@@ -357,6 +368,36 @@ def _name_and_target(rng, desc):
     sheet['cells']['H2'] = {'f': ['bin', '-', ['call', 'SUM', [['name', 'BLOCK']]],
                                   ['call', 'SUM', [rc]]]}
     sheet['cells']['H3'] = {'f': ['bin', '+', ['cell', 0, si, 8, 1], ['cell', 0, si, 8, 2]]}
+
+
+def _ranges_over_arrays(rng, desc):
+    """Formulas reading rectangles that contain array formulas and their
+    neighbours (so that range nodes over multi-cell cells exist)."""
+    for b, bk in enumerate(desc['books']):
+        for s, sh in enumerate(bk['sheets']):
+            arrs = [c['arr'] for c in sh['cells'].values() if 'arr' in c]
+            taken = {(c, r) for a in arrs for c in range(a[0], a[2] + 1)
+                     for r in range(a[1], a[3] + 1)}
+            for n, (c1, r1, c2, r2) in enumerate(arrs[:2]):
+                lo, hi = max(1, r1 - rng.randint(0, 1)), r2 + rng.randint(0, 2)
+                # never cut through another array formula (Excel cannot
+                # change part of an array; the property does not cover it)
+                while lo < r1 and any((c, lo) in taken for c in range(c1, c2 + 1)):
+                    lo += 1
+                while hi > r2 and any((c, r) in taken for c in range(c1, c2 + 1)
+                                      for r in range(r2 + 1, hi + 1)):
+                    hi -= 1
+                rect = ['rng', b, s, c1, lo, c2, hi]
+                sh['cells']['%s%d' % (gw.col_name(11), 1 + 2 * n)] = {
+                    'f': ['call', rng.choice(('SUM', 'MAX', 'COUNT')), [rect]]}
+                sh['cells']['%s%d' % (gw.col_name(11), 2 + 2 * n)] = {
+                    'f': ['bin', '+', ['call', 'SUM', [rect]], ['lit', 1.0]]}
+                # readers of single members of the array formula
+                sh['cells']['%s%d' % (gw.col_name(12), 1 + 2 * n)] = {
+                    'f': ['bin', '+', ['cell', b, s, c1, r1], ['lit', 0.0]]}
+                sh['cells']['%s%d' % (gw.col_name(12), 2 + 2 * n)] = {
+                    'f': ['bin', '*', ['cell', b, s, c1, r2], ['lit', 2.0]]}
+                desc.setdefault('focus_ranges', []).append(rect[1:])
 
 
 def plan(tier, seed):
